@@ -5,4 +5,4 @@ import sys
 sys.path[:0] = ['/repo' + "/pulser-core", '/repo' + "/pulser-simulation", "/verif"]
 from symx.replay import replay
 sys.exit(replay(check='checks.c01', kernel='finite', shape={'cls': 'ramp', 'dur': 1, 'as': 'amp'},
-                assignment={'start': '1/2', 'stop': '1/2', 'max_det': '0/1', 'max_amp': '0/1'}, label='finite:accepted_pulse_has_finite_samples'))
+                assignment={'start': '0/1', 'stop': '0/1', 'max_det': '0/1', 'max_amp': '0/1'}, label='finite:accepted_pulse_has_finite_samples'))
